@@ -6,10 +6,11 @@ the driver executes), the plain-scan spec is `Biogo/Spec/Kmer.lean`.
 import Biogo.Model.Kmer
 import Biogo.Spec.Kmer
 import Biogo.Proofs.Kmer
+import Biogo.Proofs.KmerIndex
 import Biogo.Generated.KmerFacts
 
 namespace Biogo.Properties.C10
-open Biogo.Kmer Biogo.Spec.Kmer Biogo.Proofs.Kmer
+open Biogo.Kmer Biogo.Spec.Kmer Biogo.Proofs.Kmer Biogo.Proofs.KmerIndex
 
 /-- the constants the model assumes are the constants of the package as compiled -/
 theorem facts_tie :
@@ -56,5 +57,86 @@ example :
       else if b = 116 then some 3 else none
     (forEachKmer lk 4 [97, 99, 103, 116, 110, 97, 97, 99, 103, 116, 116] 1 11).calls = [(5, 6), (6, 27), (7, 111)] := by
   decide
+
+/-- supported parameters (`MinKmerLen ≤ k ≤ MaxKmerLen`, a sequence of at least `k+1` letters, a
+    four-letter alphabet): `New` succeeds with the table of the callbacks of the whole sequence -/
+theorem new_ok (lk : Lookup) (k : Nat) (s : List UInt8) (hk : minKmerLen ≤ k) (hk' : k ≤ maxKmerLen)
+    (hs : k + 1 ≤ s.length) :
+    new lk 4 k s = .ok { k, seq := s, finger := buildTable k (forEachKmer lk k s 0 s.length).calls,
+                         pos := #[], indexed := false } := by
+  unfold new newCheck
+  rw [if_neg (by omega), if_neg (by omega), if_neg (by omega), if_neg (by omega)]
+
+theorem supported_k {k : Nat} (hk : minKmerLen ≤ k) (hk' : k ≤ maxKmerLen) : 1 ≤ k ∧ 2 * k ≤ wordBits := by
+  unfold minKmerLen at hk; unfold maxKmerLen at hk'; unfold wordBits; omega
+
+/-- "the pre-build frequency table equals the occurrence counts": after `New`, finger entry `w`
+    is the number of positions where word `w` occurs with no invalid letter inside it, and
+    `KmerFrequencies` is the list of the non-zero counts. -/
+theorem freq_spec {lk : Lookup} (hlk : FourLetter lk) (k : Nat) (s : List UInt8)
+    (hk : minKmerLen ≤ k) (hk' : k ≤ maxKmerLen) (hs : k + 1 ≤ s.length) :
+    ∃ ix, new lk 4 k s = .ok ix ∧
+      (∀ w, w ≤ 4 ^ k → rd ix.finger w = frequency lk k s w) ∧
+      kmerFrequencies ix = some ((List.range (4 ^ k + 1)).filterMap fun w =>
+        if frequency lk k s w > 0 then some (w, frequency lk k s w) else none) := by
+  obtain ⟨hk1, hk2⟩ := supported_k hk hk'
+  refine ⟨_, new_ok lk k s hk hk' hs, ?_, ?_⟩
+  · intro w hw
+    simp only [new_finger hlk k hk1 hk2]
+    rw [rd_buildTable k _ w (by rw [pow4_eq]; exact hw)]
+    rfl
+  · unfold kmerFrequencies
+    simp only [new_finger hlk k hk1 hk2, Bool.false_eq_true, if_false]
+    rw [collect_eq, List.append_nil, size_buildTable, pow4_eq]
+    congr 1
+    apply filterMap_congr'
+    intro w hw
+    rw [List.mem_range] at hw
+    rw [rd_buildTable k _ w (by rw [pow4_eq]; omega)]
+    rfl
+
+/-- "after building the index the positions reported for each k-mer are exactly the positions
+    where that word occurs with no invalid letter inside it" (as a list in increasing order —
+    `occurrences` is the plain scan filtered by the word), for every word below `4^k`, word 0 and
+    the last word included; a k-mer outside the range is rejected. -/
+theorem positions_spec {lk : Lookup} (hlk : FourLetter lk) (k : Nat) (s : List UInt8)
+    (hk : minKmerLen ≤ k) (hk' : k ≤ maxKmerLen) (hs : k + 1 ≤ s.length) :
+    ∃ ix, new lk 4 k s = .ok ix ∧
+      (∀ w, w < 4 ^ k → kmerPositions (build lk ix) w = .ok (occurrences lk k s w)) ∧
+      (∀ w, 4 ^ k ≤ w → kmerPositions (build lk ix) w = .error .badKmer) := by
+  obtain ⟨hk1, hk2⟩ := supported_k hk hk'
+  refine ⟨_, new_ok lk k s hk hk' hs, ?_, ?_⟩
+  · intro w hw
+    have inv := build_inv hlk k hk1 hk2 s (by omega)
+      { k, seq := s, finger := buildTable k (forEachKmer lk k s 0 s.length).calls, pos := #[], indexed := false }
+      rfl rfl (new_finger hlk k hk1 hk2 s)
+    rw [kmerPositions_of_inv _ k hk2 _ rfl inv w hw]
+    rfl
+  · intro w hw
+    unfold kmerPositions
+    have : (build lk { k, seq := s, finger := buildTable k (forEachKmer lk k s 0 s.length).calls,
+                       pos := #[], indexed := false }).k = k := rfl
+    rw [this, kMask_eq k hk2, if_pos (by have := four_pow_pos k; omega)]
+
+/-- "words absent from the sequence report no positions" -/
+theorem absent_spec (lk : Lookup) (k : Nat) (s : List UInt8) (w : Nat)
+    (h : frequency lk k s w = 0) : occurrences lk k s w = [] := by
+  apply List.eq_nil_of_length_eq_zero
+  unfold occurrences; unfold frequency at h
+  rw [List.length_map, ← List.countP_eq_length_filter]; exact h
+
+-- non-vacuity of the hypotheses of `freq_spec` / `positions_spec`, and a concrete index:
+-- "acgtnaacgtt" at k = 4 has the words acgt (27) at 0 and 6, aacg (6) at 5, cgtt (111) at 7
+example :
+    let lk : Lookup := fun b => if b = 97 then some 0 else if b = 99 then some 1 else if b = 103 then some 2
+      else if b = 116 then some 3 else none
+    FourLetter lk ∧ minKmerLen ≤ 4 ∧ 4 ≤ maxKmerLen ∧
+    occurrences lk 4 [97, 99, 103, 116, 110, 97, 97, 99, 103, 116, 116] 27 = [0, 6] ∧
+    occurrences lk 4 [97, 99, 103, 116, 110, 97, 97, 99, 103, 116, 116] 0 = [] := by
+  refine ⟨?_, by decide, by decide, by decide, by decide⟩
+  intro b d h
+  simp only [] at h
+  repeat' split at h
+  all_goals first | (simp at h; omega) | simp at h
 
 end Biogo.Properties.C10
